@@ -72,6 +72,34 @@ CLAIMS = {
         "the Drain impl is governed by DRN1 (C09/C10), From<[T;M]> by FROMARR1+PS2 (C12/C05).",
         ref="DESIGN.md §5 C06, §4 OCC",
     ),
+    "C03": dict(
+        category="other",
+        technique="closed who-may tables over resolved MIR (destructor sites, bit-copy/move-out sites, forget/"
+        "ManuallyDrop, unsafe-containing functions), occupancy typestate pairing, call-graph must-reach for owners",
+        text="Static decision of the structural part of exactly-once destruction: only the reviewed closed set of "
+        "functions can destroy, bit-copy, move out, disarm or contains unsafe code (all others are safe code over T); in "
+        "those, every move-out is paired with the size decrease and every size increase with the slot write, slots are "
+        "written only when already counted, every public entry returns balanced; the owners (buffer Drop, IntoIter, "
+        "Drain::drop, From<[T;M]>) destroy what they hold. Not decided: that the slot ranges passed to drop_range/"
+        "drop_in_place/ptr::copy are the right ones (values).",
+        note="Tables in rules/tables.py are reviewed by hand against the source; trusted: Rust's guarantees for safe "
+        "code, rustc MIR. Range arithmetic not decided.",
+        ref="DESIGN.md §5 C03",
+    ),
+    "C04": dict(
+        category="other",
+        technique="REQUIRES propagation of helper preconditions over the call graph with must guard facts, provenance "
+        "shape rules for header stores, taint of the free-slot view, who-may tables for reinterpretation sites",
+        text="Static decision of the structural necessary conditions: single-slot reinterpretation only through helpers "
+        "whose occupancy precondition every caller discharges (ACC1/ACC2, cross-checked in the thorough tier against the "
+        "helpers' own debug_assert!s), header written only by reviewed functions with shapes preserving size<=N, start<N "
+        "(INV1), capacity zero never reaches a modulus/index (MOD1), the free-slot view is write-only (FREE1), "
+        "constructors ignore storage bytes (CTOR1), slice-level reinterpretation only in reviewed guarded functions "
+        "(REINT1). Not decided: bounds arithmetic inside the slice views; two-run non-interference.",
+        note="One INV1 store (extend_from_slice size + other.len()) is listed as an assumption, not decided. Drain::read "
+        "is a named exception (unsafe fn with a value-level contract).",
+        ref="DESIGN.md §5 C04",
+    ),
 }
 
 
